@@ -88,6 +88,11 @@ CHECKS['C10'] = dict(
    technique='Coq proof (inverse on top of the PLU and substitution models: A B = I and B A = I whenever a value is returned; error cases; uniqueness form of the involution) + bit-for-bit correspondence + exact rational inverse oracle',
    text='4 theorems: c10_right_left (both products are the identity, for every pivoting pattern incl. non-symmetric permutations), c10_errors (non-square, singular via null vectors, 0x0 is Ok, never a panic), c10_involutive_partial (if both inversions succeed the second returns A entrywise) with a proved counterexample showing the relative pivot threshold can refuse the second inversion; exhaustive small-integer 2x2/3x3, cyclic permutations, i32 and f64 elements, matrices scaled by 2^+-60',
    note=COMMON_NOTE + '; rounding-scaled residual bounds and the round trip for well-conditioned A are measured by the oracle; one known finding (F21)', ref='DESIGN.md §5 C10')
+
+CHECKS['C19'] = dict(
+   technique='Coq proof (panic-aware lexer/Pratt-parser/fold model: totality with fuel; full simulation between precedence climbing and a stratified reference reader incl. juxtaposition, prefix minus and functions; fold soundness without premise; display round trip on a fragment) + exhaustive token-sequence correspondence through a cfg hook + independent Python reference reader/evaluator',
+   text='6 theorems: c19_total (all number types: never a panic, fuel never runs out), c19_parser_reads and c19_parser_reads_folded (every parse over numbers, variables, constants, functions, + - * / ^ !, unary minus, parentheses and juxtaposition denotes the conventional reading, all lengths and nestings), c19_fold_sound (folding preserves every defined value) and c19_fold_idempotent, c19_display_roundtrip_partial (number-free fully parenthesised trees incl. constants and prefix minus reread exactly); binding powers tied to the source table through Gen/Consts.v; every token sequence over the 15 token kinds up to length 4 (readable ones to 5; thorough 5/6) plus random trees and arbitrary strings run against the real code',
+   note=COMMON_NOTE + '; three known findings remain, all in Display (F16e residue, F16f residue, F16j: parentheses/juxtaposition lost when printing)', ref='DESIGN.md §5 C19')
 NOT_APPLICABLE = {}
 ALL = ['C%02d' % i for i in range(1, 21)]
 PENDING_REASON = 'not claimed yet in this revision: model/proof under construction (see DESIGN.md §9); no check is registered so nothing is asserted'
